@@ -557,7 +557,7 @@ impl Property for C15 {
             .boxed()
     }
     fn budget(&self, tier: Tier) -> Budget {
-        Budget::new(tier.pick(150_000, 5_000_000), tier.pick(8, 16)).min_nontrivial(tier.pick(5_000, 200_000)).case_timeout(60).shrink(4000, 120)
+        Budget::new(tier.pick(150_000, 5_000_000), tier.pick(8, 16)).min_nontrivial(tier.pick(5_000, 200_000)).case_timeout(300).shrink(4000, 120)
     }
     fn rule(&self) -> String {
         "generated (channel layout, sender scripts, consumer scripts, receiver ownership, schedule with bounded preemptions) run under the harness scheduler; \
